@@ -55,9 +55,19 @@ class Condition(abc.ABC):
         return self.qasm
 
     def _with_measurement_key_mapping_(self, key_map: Mapping[str, str]) -> cirq.Condition:
+        # All keys are renamed at once: a map may send one key of the condition onto another one
+        # (e.g. a swap), so each key first moves to a placeholder of its own.
+        keys = list(self.keys)
+        placeholders = [
+            measurement_key.MeasurementKey(f'_cirq_key_being_mapped_{i}') for i in range(len(keys))
+        ]
         condition = self
-        for k in self.keys:
-            condition = condition.replace_key(k, mkp.with_measurement_key_mapping(k, key_map))
+        for k, placeholder in zip(keys, placeholders):
+            condition = condition.replace_key(k, placeholder)
+        for k, placeholder in zip(keys, placeholders):
+            condition = condition.replace_key(
+                placeholder, mkp.with_measurement_key_mapping(k, key_map)
+            )
         return condition
 
     def _with_key_path_prefix_(self, path: tuple[str, ...]) -> cirq.Condition:
